@@ -38,11 +38,30 @@ class Effects:
         self.direct = {}          # qual -> set of (loc, node)
         self.calls = {}           # qual -> list of (callee name, node, receiver text, fresh?)
         self.summary = {}
+        self.via = {}
+        self.fresh = {}
+        self.split = {}
         self._scan()
         self._fix()
 
     # ------------------------------------------------------------------
     def _attr_chain(self, n):
+        """[root name, ...attrs]; the root is the variable the access path starts from"""
+        m = n
+        while True:
+            if isinstance(m, ast.Attribute):
+                m = m.value
+            elif isinstance(m, ast.Subscript):
+                m = m.value
+            elif isinstance(m, ast.Call) and isinstance(m.func, ast.Attribute):
+                m = m.func.value
+            else:
+                break
+        if isinstance(m, ast.Name):
+            return [m.id]
+        return ['?']
+
+    def _attr_chain_old(self, n):
         parts = []
         while isinstance(n, ast.Attribute):
             parts.append(n.attr)
@@ -159,10 +178,19 @@ class Effects:
         visit(fi.node, False)
         return out
 
+    def _via(self, fi, root):
+        """through which object of the function a write goes: its receiver ('self') or another object ('arg')"""
+        if fi.cls is not None and root == 'self':
+            return 'self'
+        if root in fi.params:
+            return 'arg'
+        return 'self' if (fi.cls is not None and fi.params and fi.params[0] == 'self') else 'arg'
+
     def _scan(self):
         for q, fi in self.prog.functions.items():
             d = set()
             calls = []
+            via = {}
             fresh = self._fresh_names(fi)
             vg = self._virtual_guarded(fi)
             for n in ast.walk(fi.node):
@@ -185,6 +213,7 @@ class Effects:
                                 if id(n) in vg and loc in ('POS', 'TIME'):
                                     loc = 'AFCOL'
                                 d.add((loc, n))
+                                via[(loc, id(n))] = self._via(fi, root)
                 if isinstance(n, ast.Call):
                     f = n.func
                     if isinstance(f, ast.Attribute):
@@ -200,16 +229,27 @@ class Effects:
                             a = mangle(fi.cls.name, f.value.attr) if fi.cls else f.value.attr
                             if a == POINTS and not isfresh:
                                 d.add(('OBSLIST', n))
+                                via[('OBSLIST', id(n))] = self._via(fi, root)
                             if f.value.attr == 'features' and not isfresh:
                                 d.add(('AFTABLE', n))
+                                via[('AFTABLE', id(n))] = self._via(fi, root)
                         if f.attr in LIST_MUTATORS and isinstance(f.value, ast.Subscript) and \
                                 isinstance(f.value.value, ast.Attribute) and f.value.value.attr == 'features' and not isfresh:
                             d.add(('AFCOL', n))
-                        calls.append((f.attr, n, recv, isfresh and not passes_param, id(n) in vg))
+                            via[('AFCOL', id(n))] = self._via(fi, root)
+                        argfresh = all((m_.id in fresh) for a in list(n.args) + [k.value for k in n.keywords] for m_ in ast.walk(a)
+                                       if isinstance(m_, ast.Name) and m_.id not in ('True', 'False', 'None') and
+                                       not (m_.id[:1].isupper()))
+                        calls.append((f.attr, n, recv, (isfresh, argfresh, root, sorted(argnames)), id(n) in vg))
                     elif isinstance(f, ast.Name):
-                        calls.append((f.id, n, None, False, id(n) in vg))
+                        argnames = {m.id for a in list(n.args) + [k.value for k in n.keywords] for m in ast.walk(a)
+                                    if isinstance(m, ast.Name)}
+                        argfresh = all((x in fresh) or x[:1].isupper() for x in argnames)
+                        calls.append((f.id, n, None, (False, argfresh, None, sorted(argnames)), id(n) in vg))
             self.direct[q] = d
             self.calls[q] = calls
+            self.via[q] = via
+            self.fresh[q] = fresh
 
     def _callees(self, name, recv, caller=None):
         """repository functions a call may reach: by name, narrowed by what the receiver text tells"""
@@ -269,28 +309,51 @@ class Effects:
             return [fi for fi in out if fi.cls is not None and fi.cls.name in guess]
         return out
 
+    def _contrib(self, q, call, summ):
+        """effects a call contributes to its caller, as {(loc, via)}"""
+        name, node, recv, (recvfresh, argfresh, root, argnames), vguard = call
+        caller = self.prog.functions[q]
+        out = set()
+        for fi in self._callees(name, recv, caller):
+            for (loc, v) in summ.get(fi.qual, ()):
+                if vguard and loc in ('POS', 'TIME'):
+                    loc = 'AFCOL'
+                if v == 'self' and recv is not None:
+                    if recvfresh:
+                        continue
+                    out.add((loc, self._via(caller, root)))
+                elif v == 'self' and recv is None:
+                    # constructor-like / unbound call: receiver effects stay with the callee's own object
+                    out.add((loc, 'arg')) if not argfresh else None
+                else:
+                    if argfresh:
+                        continue
+                    if 'self' in argnames and caller.cls is not None:
+                        out.add((loc, 'self'))
+                    elif set(argnames) & set(caller.params):
+                        out.add((loc, 'arg'))
+                    else:
+                        out.add((loc, self._via(caller, '?')))
+        return out
+
     def _fix(self):
-        summ = {q: {loc for loc, _ in d} for q, d in self.direct.items()}
+        summ = {}
+        for q, d in self.direct.items():
+            summ[q] = {(loc, self.via[q].get((loc, id(n)), 'self')) for loc, n in d}
         changed = True
         it = 0
-        while changed and it < 50:
+        while changed and it < 60:
             changed = False
             it += 1
             for q, calls in self.calls.items():
                 cur = summ[q]
-                caller = self.prog.functions[q]
-                for name, node, recv, isfresh, vguard in calls:
-                    if isfresh:
-                        continue
-                    for fi in self._callees(name, recv, caller):
-                        eff = summ.get(fi.qual, set())
-                        if vguard:
-                            eff = {('AFCOL' if l in ('POS', 'TIME') else l) for l in eff}
-                        add = eff - cur
-                        if add:
-                            cur |= add
-                            changed = True
-        self.summary = summ
+                for call in calls:
+                    add = self._contrib(q, call, summ) - cur
+                    if add:
+                        cur |= add
+                        changed = True
+        self.split = summ
+        self.summary = {q: {loc for loc, _ in v} for q, v in summ.items()}
 
     # ------------------------------------------------------------------
     def effects_of(self, qual):
@@ -306,8 +369,9 @@ class Effects:
         for l, node in self.direct.get(qual, ()):
             if l == loc:
                 return ['%s @%s: %s' % (qual, fi.loc(node) if fi else '?', ast.unparse(node)[:80])]
-        for name, node, recv, isfresh, vguard in self.calls.get(qual, ()):
-            if isfresh or (vguard and loc in ('POS', 'TIME')):
+        for call in self.calls.get(qual, ()):
+            name, node, recv, meta, vguard = call
+            if not any(l == loc for l, _ in self._contrib(qual, call, self.split)):
                 continue
             for cf in self._callees(name, recv, fi):
                 if loc in self.summary.get(cf.qual, ()):
@@ -330,8 +394,9 @@ class Effects:
             for l, node in self.direct.get(q, ()):
                 if l == loc:
                     out.append((fi, node, chain + ['%s @%s' % (q, fi.loc(node))]))
-            for name, node, recv, isfresh, vguard in self.calls.get(q, ()):
-                if isfresh or (vguard and loc in ('POS', 'TIME')):
+            for call in self.calls.get(q, ()):
+                name, node, recv, meta, vguard = call
+                if not any(l == loc for l, _ in self._contrib(q, call, self.split)):
                     continue
                 for cf in self._callees(name, recv, fi):
                     if loc in self.summary.get(cf.qual, ()) and cf.qual not in seen:
